@@ -317,6 +317,12 @@ def fold_bool(c):
     """constant folding of conditions whose operands are literals (used when a
     function is specialised for a literal argument, e.g. target="new")"""
     h = c[0]
+    if c == T.NONE:
+        return ("bool", False)            # truth value of a literal None (e.g. kwargs.get("flag") on a literal dict)
+    if h in ("num", "str"):
+        return ("bool", bool(c[1]))
+    if h in ("tuple", "list") and all(isinstance(x, tuple) for x in c[1:]):
+        return ("bool", len(c) > 1)
     if h == "cmp":
         a, b = c[2], c[3]
         if c[1] in ("In", "NotIn") and a[0] == "str" and b[0] == "dict":
